@@ -75,6 +75,21 @@ func genTmpl(r *vk.RNG, allowFail, allowTyped bool) Tmpl {
 				return fmt.Sprint(float64(b)), true
 			}},
 			{`{{ urldecode "%zz" }}`, func(e *Ent) (string, bool) { return "", false }},
+			// text is emitted BEFORE a data-dependent failure: some records fail, others succeed
+			{`<{{ .` + l1 + ` }}:{{ index .` + l2 + ` 3 }}>`, func(e *Ent) (string, bool) {
+				v := e.L[l2]
+				if len(v) <= 3 {
+					return "", false
+				}
+				return "<" + e.L[l1] + ":" + strconv.Itoa(int(v[3])) + ">", true
+			}},
+			{`pre-{{ .` + l2 + ` | duration }}-post`, func(e *Ent) (string, bool) {
+				d, known := durValues[e.L[l2]]
+				if !known {
+					return "", false
+				}
+				return "pre-" + fmt.Sprint(d.Seconds()) + "-post", true
+			}},
 			{`{{ index .` + l2 + ` 9999999 }}`, func(e *Ent) (string, bool) { return "", false }},
 		}
 		f := vk.Pick(r, fails)
